@@ -199,6 +199,11 @@ Inductive dres := Done (s : state) | Aborted (s : state) (x : exn) | DOutOfFuel.
 
 Definition obj_of_lval (v : lval) : obj := (fst (fst v), snd (fst v)).
 
+(* Scene.load (since /repo c91a4c8) finally sorts the loaded top-level nodes by their position in
+   the document; collada.nodes keeps load order (deferred nodes after the others) *)
+Definition in_document_order (doc_nodes : list tnode) (l : list lnode) : list lnode :=
+  flat_map (fun n => filter (fun ln : lnode => N.eqb (fst (fst ln)) (n_uid n)) l) doc_nodes.
+
 (* library_nodes elements one after the other, each with its own retry loop *)
 Fixpoint load_node_groups (mk : mask) (o : objs) (groups : list (list tnode)) (loaded : list lnode)
          (errs : list exn) : list lnode * list exn * option exn * bool :=
@@ -208,7 +213,10 @@ Fixpoint load_node_groups (mk : mask) (o : objs) (groups : list (list tnode)) (l
       match load_group mk InLibrary o g loaded errs with
       | NOutOfFuel => (loaded, errs, None, true)
       | NAborted l e x => (l, e, Some x, false)
-      | NFinished l lo e =>
+      | NFinished l0 lo e =>
+          (* since /repo e99e57c the nodes this library_nodes element contributed are put back
+             into document order before the leftovers are reported *)
+          let l := firstn (length loaded) l0 ++ in_document_order g (skipn (length loaded) l0) in
           let '(e', ab) := report_leftovers mk lo e in
           match ab with
           | Some x => (l, e', Some x, false)
@@ -216,11 +224,6 @@ Fixpoint load_node_groups (mk : mask) (o : objs) (groups : list (list tnode)) (l
           end
       end
   end.
-
-(* Scene.load (since /repo c91a4c8) finally sorts the loaded top-level nodes by their position in
-   the document; collada.nodes keeps load order (deferred nodes after the others) *)
-Definition in_document_order (doc_nodes : list tnode) (l : list lnode) : list lnode :=
-  flat_map (fun n => filter (fun ln : lnode => N.eqb (fst (fst ln)) (n_uid n)) l) doc_nodes.
 
 (* Scene.load as one item of the visual-scene library loop; errors recorded inside are kept *)
 Definition load_scene (mk : mask) (o : objs) (s : scene) (errs : list exn)
